@@ -67,6 +67,7 @@ pub struct LruDiskCache<S: BuildHasher = RandomState> {
     root: PathBuf,
     pending: Vec<OsString>,
     pending_size: u64,
+    read_only: bool,
 }
 
 /// Errors returned by this crate.
@@ -144,11 +145,31 @@ impl LruDiskCache {
     where
         PathBuf: From<T>,
     {
+        Self::open(path, size, false)
+    }
+
+    /// Create an `LruDiskCache` over the files in `path` for a cache that is only ever read.
+    ///
+    /// Nothing under `path` is created or removed: temporary files, files that are individually
+    /// larger than `size` bytes and the least recently used files that do not fit within `size`
+    /// bytes are left on disk and are simply not served.
+    pub fn new_read_only<T>(path: T, size: u64) -> Result<Self>
+    where
+        PathBuf: From<T>,
+    {
+        Self::open(path, size, true)
+    }
+
+    fn open<T>(path: T, size: u64, read_only: bool) -> Result<Self>
+    where
+        PathBuf: From<T>,
+    {
         LruDiskCache {
             lru: LruCache::with_meter(size, FileSize),
             root: PathBuf::from(path),
             pending: vec![],
             pending_size: 0,
+            read_only,
         }
         .init()
     }
@@ -184,6 +205,22 @@ impl LruDiskCache {
 
     /// Scan `self.root` for existing files and store them.
     fn init(mut self) -> Result<Self> {
+        if self.read_only {
+            for (file, size) in get_all_files(&self.root) {
+                let is_temp = file
+                    .file_name()
+                    .expect("Bad path?")
+                    .starts_with(TEMPFILE_PREFIX);
+                if is_temp || !self.can_store(size) {
+                    continue;
+                }
+                let rel_path = file.strip_prefix(&self.root).expect("Bad path?");
+                // Once the capacity is exceeded `LruCache::insert` drops the least
+                // recently used entries from the index; their files stay on disk.
+                self.lru.insert(rel_path.as_os_str().to_owned(), size);
+            }
+            return Ok(self);
+        }
         fs::create_dir_all(&self.root)?;
         for (file, size) in get_all_files(&self.root) {
             if file
@@ -548,6 +585,32 @@ mod tests {
         assert_eq!(c.len(), 1);
         assert!(!c.contains_key("file1"));
         assert!(c.contains_key("file2"));
+    }
+
+    #[test]
+    fn test_read_only_open_removes_nothing() {
+        let f = TestFixture::new();
+        // Create files explicitly in the past.
+        let file1 = f.create_file("file1", 10);
+        set_mtime_back(&file1, 10);
+        let file2 = f.create_file("file2", 10);
+        set_mtime_back(&file2, 5);
+        let too_large = f.create_file("file3", 20);
+        let temp = f.create_file(format!("{}stale", super::TEMPFILE_PREFIX), 1);
+        let mut c = LruDiskCache::new_read_only(f.tmp(), 15).unwrap();
+        // Only the most recently used file that fits is served...
+        assert_eq!(c.size(), 10);
+        assert_eq!(c.len(), 1);
+        assert!(!c.contains_key("file1"));
+        assert!(c.contains_key("file2"));
+        assert!(c.get("file2").is_ok());
+        // ...but everything is still there.
+        for p in [file1, file2, too_large, temp] {
+            assert!(p.exists());
+        }
+        // A missing directory is not created either.
+        LruDiskCache::new_read_only(f.tmp().join("not-here"), 15).unwrap();
+        assert!(!f.tmp().join("not-here").exists());
     }
 
     #[test]
